@@ -80,7 +80,7 @@ func runC26(c *fw.Ctx) {
 	childNames := []string{"x", ".git", "..", "config", "hooks"}
 	targets := []string{"..", ".git", "/outside", "../outside", ".git/hooks", "b"}
 	if !c.Thorough() {
-		names = []string{".git", ".GIT", ".git.", "git~1", ".g‌it", "..", "a", ".gitmodules", "a\\b"}
+		names = []string{".git", ".GIT", ".git.", "git~1", ".g‌it", "..", "a", ".gitmodules", "a\\b", ".gitignore"}
 		childNames = []string{"x", ".git", "config"}
 		targets = []string{"..", ".git", "/outside", "../outside"}
 	}
@@ -153,7 +153,7 @@ func runC26(c *fw.Ctx) {
 				if !(strings.HasPrefix(a, "symlink") || strings.HasPrefix(b, "symlink") || strings.HasPrefix(a, "dir") && strings.HasPrefix(b, "dir")) {
 					continue
 				}
-				if !c.Thorough() && n != "a" && n != ".gitmodules" && n != "git~1" {
+				if !c.Thorough() && n != "a" && n != ".gitmodules" && n != "git~1" && n != ".gitignore" {
 					continue
 				}
 				cases = append(cases, cas{n, k1, k2, "", true, false})
